@@ -1381,11 +1381,12 @@ def python_value_to_guppy_type(
             hints = (
                 type_hint.element_types
                 if isinstance(type_hint, TupleType)
+                and len(type_hint.element_types) == len(elts)
                 else len(elts) * [None]
             )
             tys = [
                 python_value_to_guppy_type(elt, node, globals, hint)
-                for elt, hint in zip(elts, hints, strict=False)
+                for elt, hint in zip(elts, hints, strict=True)
             ]
             if any(ty is None for ty in tys):
                 return None
